@@ -502,6 +502,12 @@ fn c11_case(leg: &mut Leg, r: &mut Rng, case_seed: u64) {
                 }
             }
         }
+        let mut opts = opts;
+        if r.chance(1, 3) {
+            // "maximum DHCP message size": which options a client is sent does not depend on it
+            let v = *r.pick(&[576u16, 577, 600, 640, 700, 800, 1024, 1500]);
+            opts.insert(57, v.to_be_bytes().to_vec());
+        }
         let q = mp::Request {
             chaddr,
             serverip,
